@@ -112,7 +112,7 @@ func allocatedBytes() uint64 {
 // operations that are long histories or generate keys by design
 func resourceExempt(op string) bool {
 	switch op {
-	case "msg.noncehistory", "cwt.wallclock", "seq":
+	case "msg.noncehistory", "cwt.wallclock", "seq", "msg.huge": // msg.huge: the size is an argument, not the length of the line
 		return true
 	}
 	return strings.HasPrefix(op, "conv.")
